@@ -59,6 +59,7 @@ def shards(tier, seed):
     out.append(("chain",))
     out.append(("big",))
     out += [("seps", i) for i in range(len(SEPS))]
+    out.append(("nospec",))
     return out
 
 
@@ -163,6 +164,20 @@ def run_shard(desc, tier):
         for a, b, c in itertools.product(few, repeat=3):
             judge_grammar([specs[a], specs[b], specs[c]], SEP_SIZE, "bytes=" + texts[a] + sep + texts[b] + sep + texts[c], r)
         r.sample({"size": SEP_SIZE, "separator": sep, "header": "bytes=0-1" + sep + "3-"})
+    elif kind == "nospec":
+        # no range spec at all / another unit / no '=': malformed (400) whatever the file size; zero-padded numbers are numbers
+        for size in (0, 1, 5, 10, 768):
+            for header in ("bytes=", "bytes=-", "bytes=,", "bytes= ", "bytes=, ,", "byte=0-1", "items=0-1", "0-1", "bytes", "", "bytes:0-1", " bytes=0-1", "Bytes=0-1", "bytes=--", "bytes=-,-"):
+                got = _call(header, size)
+                r.count("evaluations")
+                r.count("distinct_nontrivial")
+                if got[0] != "http" or got[1] != 400:
+                    r.violation("not-rejected:malformed", {"header": header, "size": size}, f"parse_range({header!r}, {size}) has no byte-range spec / not the bytes unit: must be 400, got {got!r:.100}")
+            for pad in (2, 4, 7):
+                for specs in ([("fl", 0, 1)], [("f", 1)], [("s", 1)], [("s", 0)], [("fl", 0, size + 3)], [("fl", 2, 1)], [("fl", 0, 0), ("s", 2)], [("f", size)], [("fl", size + 1, size + 2)]):
+                    txt = "bytes=" + ",".join((str(x[1]).zfill(pad) + "-" + str(x[2]).zfill(pad)) if x[0] == "fl" else (str(x[1]).zfill(pad) + "-" if x[0] == "f" else "-" + str(x[1]).zfill(pad)) for x in specs)
+                    judge_grammar(specs, size, txt, r)
+        r.sample({"header": "bytes=", "sizes": [0, 1, 5, 10, 768], "padded": "bytes=0000-0001"})
     elif kind == "chain":
         for n in range(4, len(CHAIN) + 1):
             for sub in itertools.combinations(CHAIN, n):
